@@ -289,3 +289,20 @@ func init() {
 	addMutant(Mutant{Name: "c03-decoder-accepts-then-writers-free", Property: "C03", File: "ygot/diff.go",
 		Old: "if ni.FieldValue.Kind() == reflect.Slice && ni.FieldValue.Len() == 0 && ni.FieldValue.Type().Name() != BinaryTypeName {", New: "if ni.FieldValue.Kind() == reflect.Slice && ni.FieldValue.Len() == 0 {", Expect: "skip#"})
 }
+
+func init() {
+	// R-ANCHOR-GROUP (C06)
+	addMutant(Mutant{Name: "c06-own-caret-ungrouped", Property: "C06", File: "util/yang.go",
+		Old: "\t\tif i == 0 && groupAfterCaret {\n\t\t\tbuf.WriteRune('(')\n\t\t\taddParens = true\n\t\t}\n", New: "\t\t_ = groupAfterCaret\n", Expect: "group-open:own-caret"})
+	addMutant(Mutant{Name: "c06-group-without-close-flag", Property: "C06", File: "util/yang.go",
+		Old: "\t\tif i == 0 && groupAfterCaret {\n\t\t\tbuf.WriteRune('(')\n\t\t\taddParens = true\n\t\t}\n", New: "\t\tif i == 0 && groupAfterCaret {\n\t\t\tbuf.WriteRune('(')\n\t\t}\n", Expect: "group-open#"})
+}
+
+func init() {
+	// R-PREFIX-PAIR (C02)
+	addMutant(Mutant{Name: "c02-update-path-not-stripped", Property: "C02", File: "ygot/render.go",
+		Old: "\tpath, err := pk.p.StripPrefix(pfx)\n\tif err != nil {\n\t\treturn err\n\t}\n\n\tppath, err := path.ToProto()",
+		New: "\t_, err := pk.p.StripPrefix(pfx)\n\tif err != nil {\n\t\treturn err\n\t}\n\n\tppath, err := pk.p.ToProto()", Expect: "addToNotification:Update.Path"})
+	addMutant(Mutant{Name: "c02-prefix-not-published", Property: "C02", File: "ygot/render.go",
+		Old: "\tp, err := pfx.ToProto()\n\tif err != nil {\n\t\treturn nil, err\n\t}\n\tn.Prefix = p", New: "\tp, err := newPathElemGNMIPath(nil).ToProto()\n\tif err != nil {\n\t\treturn nil, err\n\t}\n\tn.Prefix = p", Expect: "leavesToNotifications:Prefix"})
+}
